@@ -22,7 +22,7 @@ META = dict(
     technique='runtime monitoring: differential round-trip monitor '
               '(encoder vs parser of the working tree) with strict structural '
               'fingerprints, lxml well-formedness oracle, second-generation '
-              'fix-point check, sys.monitoring reach counters',
+              'fix-point check, sys.monitoring reach counters; thorough tier also applies the same oracle to the CIM objects that the repository\'s own unit tests construct (harvested by a sys.monitoring PY_RETURN hook on the constructors)',
     level_text='Seeded generation of CIM object trees over all 15 types, '
                'hostile XML-1.0 strings, NULL entries, nested references and '
                'embedded objects to depth 3; each is encoded, parsed, compared '
